@@ -30,10 +30,15 @@ def run(ctx):
                          "error/empty/no-progress/repeat/foreign answers, failing UserBatchUpdate, unknown prefixes, malformed uuids, "
                          "duplicates, 1-3 uuid filters, unsplittable options); every call runs under a 20 s watchdog and a call that "
                          "does not return (or panics) is a judged observation; distinct by hash of the case term; non-trivial = at "
-                         "least 2 backend calls, an error result, or a call that did not return",
+                         "least 2 backend calls, an error result, or a call that did not return; scenario: one cluster certain to fail while "
+                         "another is stuck until its context is cancelled; stage c20wire: well-formed requests (26-39 uuids for one "
+                         "cluster in half of them) with every stub behind rpc.Conn -> HTTP -> router.New(stub), and the federating Conn "
+                         "too in half of the cases",
                     assumptions=["stub backends ignore context cancellation, so each cluster's request log is a function of its own answers",
                                  "with several failing clusters the returned error is the first to arrive: any failing cluster's error class is accepted",
                                  "item order is compared exactly only because the stubs give every item instance a distinct modified_at",
                                  "a Conn.<Type>List call against in-process stubs (microseconds of work) that has not returned after 20 s "
                                  "(VERIF_C20_WATCHDOG_S) never returns; generation stops after two such cases",
-                                 "a stub backend refuses (error 508, unrecorded) every list call after its 60th of one request"])
+                                 "a stub backend refuses (error 508, unrecorded) every list call after its 60th of one request",
+                                 "stage c20wire: backends reached through rpc.Conn honour cancellation; once the model says the request fails, "
+                                 "each backend's log is compared as a prefix of the model's calls; JSON lists of strings are printed as OStrs"])
